@@ -81,10 +81,37 @@ class IE(enum.IntEnum):
     ONE = 1
 
 
+class SE(str, enum.Enum):
+    RED = 'red'
+
+
+class LoudInt(int):
+    def __int__(self):
+        return 99
+
+    def __str__(self):
+        return 'loud'
+
+
+class LoudFloat(float):
+    def __float__(self):
+        return 9.5
+
+    def __str__(self):
+        return 'loudf'
+
+
+class LoudStr(str):
+    def __str__(self):
+        return 'LOUD'
+
+
 def subclass_values():
     return [MyStr('s'), MyInt(3), MyFloat(1.5), MyList([1, MyStr('x')]), MyDict({MyStr('k'): MyInt(1)}),
             MyTuple((1, 2)), NT(1, [2]), collections.OrderedDict([('b', 1), ('a', 2)]), IE.ONE,
-            {MyInt(0): 1}, {MyFloat(1.5): 1}, [MyTuple(())], {'a': MyList()}, {IE.ONE: 1}]
+            {MyInt(0): 1}, {MyFloat(1.5): 1}, [MyTuple(())], {'a': MyList()}, {IE.ONE: 1},
+            SE.RED, [SE.RED], {SE.RED: SE.RED}, {'k': SE.RED}, LoudInt(3), LoudFloat(1.5), LoudStr('quiet'),
+            {LoudStr('quiet'): LoudInt(3)}, {LoudInt(3): LoudFloat(1.5)}, {LoudFloat(2.5): 1}]
 
 
 def nonjson_values():
